@@ -20,20 +20,20 @@ def getIdx {α} (xs : List α) (i : Int) : Option α :=
 def clampIdx (n : Nat) (i : Int) : Nat :=
   if i < 0 then (if i + n < 0 then 0 else (i + n).toNat) else (if i.toNat < n then i.toNat else n)
 
+/-- position of a slice's start / stop bound on a sequence of length `n` (`none` = omitted) -/
+def startIdx (n : Nat) (s : Option Int) : Nat := match s with | none => 0 | some x => clampIdx n x
+def stopIdx (n : Nat) (e : Option Int) : Nat := match e with | none => n | some x => clampIdx n x
+
 /-- `xs[start:stop]` with `none` for an omitted bound. -/
 def slice {α} (xs : List α) (start stop : Option Int) : List α :=
-  let n := xs.length
-  let a := match start with | none => 0 | some s => clampIdx n s
-  let b := match stop with | none => n | some s => clampIdx n s
-  (xs.drop a).take (b - a)
+  (xs.drop (startIdx xs.length start)).take (stopIdx xs.length stop - startIdx xs.length start)
 
 /-- `xs[a:b] = ys` for `len(ys) = b-a` (NumPy broadcasting of equal-length rows);
     `none` when the shapes do not match (NumPy raises ValueError). -/
 def setSlice {α} (xs : List α) (start stop : Option Int) (ys : List α) : Option (List α) :=
-  let n := xs.length
-  let a := match start with | none => 0 | some s => clampIdx n s
-  let b := match stop with | none => n | some s => clampIdx n s
-  if (b - a) = ys.length then some (xs.take a ++ ys ++ xs.drop (a + ys.length)) else none
+  if (stopIdx xs.length stop - startIdx xs.length start) = ys.length
+  then some (xs.take (startIdx xs.length start) ++ ys ++ xs.drop (startIdx xs.length start + ys.length))
+  else none
 
 /-- `np.delete(xs, i, axis=0)`; NumPy raises IndexError when out of bounds (negative wraps). -/
 def npDelete {α} (xs : List α) (i : Int) : Option (List α) :=
